@@ -27,6 +27,21 @@ Theorem C15_threshold_example :
 Proof. exact threshold_example. Qed.
 Print Assumptions C15_threshold_example.
 
+(* asking for a larger fraction never keeps fewer modes, and never withdraws the warning *)
+Theorem C15_threshold_monotone : forall (npre : Z) (cum : list R) (f1 f2 : R), f1 <= f2 ->
+  (fst (dec_n_modes_clipped OR npre cum f1) <= fst (dec_n_modes_clipped OR npre cum f2))%Z /\
+  (fst (svd_n_modes_clipped OR npre cum f1) <= fst (svd_n_modes_clipped OR npre cum f2))%Z /\
+  (snd (dec_n_modes_clipped OR npre cum f1) = true -> snd (dec_n_modes_clipped OR npre cum f2) = true) /\
+  (snd (svd_n_modes_clipped OR npre cum f1) = true -> snd (svd_n_modes_clipped OR npre cum f2) = true).
+Proof. exact threshold_monotone. Qed.
+Print Assumptions C15_threshold_monotone.
+
+Theorem C15_threshold_strict_variant_refuted :
+  exists cum frac, frac <= nth 0 cum 0 /\ n_modes_required_strict 2 cum frac = 2%Z /\
+                   fst (dec_n_modes_clipped OR 2 cum frac) = 1%Z.
+Proof. exact threshold_strict_variant_refuted. Qed.
+Print Assumptions C15_threshold_strict_variant_refuted.
+
 (* the 'auto' policy only selects between what 'full' and what 'randomized' select *)
 Theorem C15_policy_auto_decomposer : forall small cplx dask npre rank,
   policy dec_use_exact dec_backend "auto" small cplx dask npre rank = policy dec_use_exact dec_backend "full" small cplx dask npre rank \/
